@@ -2,6 +2,7 @@ import SignaloModel.Proofs.BridgeHull
 import SignaloModel.Proofs.BridgeSimple
 import SignaloModel.Proofs.SmoothProofs
 import SignaloModel.Proofs.RegAlphaBeta
+import SignaloModel.Proofs.OneStep
 /-!
 # C14 — Alpha-beta tracker follows its recurrence, is linear and preserves constants
 
@@ -10,6 +11,8 @@ The property theorems for C14: `#check` prints each statement, `#print axioms` i
 -/
 open SignaloModel
 
+#check @Registry.alphaBeta_first
+#check @Registry.alphaBeta_step
 #check @Registry.alphaBeta_registry_offset
 #check @Registry.alphaBeta_registry_scale
 #check @Registry.alphaBeta_registry_linear
@@ -22,6 +25,8 @@ open SignaloModel
 #check @Smooth.ab_linear
 #check @Smooth.ab_const
 
+#print axioms Registry.alphaBeta_first
+#print axioms Registry.alphaBeta_step
 #print axioms Registry.alphaBeta_registry_offset
 #print axioms Registry.alphaBeta_registry_scale
 #print axioms Registry.alphaBeta_registry_linear
